@@ -598,8 +598,12 @@ VALUE_POOL = {
     "2-tuple": ["(1;2)", "(1; 2)", "(1;)", "(;2)", ["(1;)", "(;2)"], ["(1;2)", "(7;8;9)"], ["(7;8;9)", "(1;2)"], ["(3;4)", "(5)"], ["1", "2"], [["1", "2"]], "(1;2;3)", "(1)", "1;2", "", None, "[(1;2),(3;4)]",
                 ["(1;2)", "(3;4)"], [["a", "b"], ["c"]], (1, 2), [(1, 2)], "( a ; b )", "((1;2))", "(;)"],
     "3-tuple": ["(1;2;3)", ["a", "b", "c"], "(1;2)"],
+    # a two-digit arity
+    "12-tuple": ["(" + ";".join(str(k) for k in range(12)) + ")", [[str(k) for k in range(12)]],
+                 [[str(k) for k in range(12)], [str(k * 3) for k in range(12)]], [[str(k) for k in range(11)]],
+                 "(1;2)", ["(" + ";".join("x%d" % k for k in range(12)) + ")", "(1)"], None],
 }
-DTYPES = ["string", "text", "int", "float", "url", "datetime", "date", "time", "boolean", "person", "2-tuple", "3-tuple"]
+DTYPES = ["string", "text", "int", "float", "url", "datetime", "date", "time", "boolean", "person", "2-tuple", "3-tuple", "12-tuple"]
 DTYPE_INPUTS = DTYPES + ["DType.int", "str", "bool", "bogus", "", "0-tuple", None,
                          # names of Python types that are no odML types: must be refused at any point of a history
                          "tuple", "list", "complex", "dict", "bytes", "NoneType", "set", "datetime.date", "object"]
@@ -664,7 +668,7 @@ def _good(dtype):
     return {"int": [1, 2], "float": [1.5], "boolean": [True, False], "string": ["s", "t"], "text": ["a\nb"],
             "url": ["http://x"], "person": ["A. B."], "date": [dt.date(2020, 1, 2)], "time": [dt.time(1, 2, 3)],
             "datetime": [dt.datetime(2020, 1, 2, 3, 4, 5)], "2-tuple": [["1", "2"], ["3", "4"]],
-            "3-tuple": [["a", "b", "c"]]}[dtype]
+            "3-tuple": [["a", "b", "c"]], "12-tuple": [[str(k) for k in range(12)]]}[dtype]
 
 
 def rand_value_ops(rng, n):
